@@ -18,6 +18,17 @@ import (
 // compile is core-code for converting the AST into a series of bytecodes.
 func (e *Eval) compile(node ast.Node) error {
 
+	// We walk the tree recursively, so its depth is the depth of our
+	// stack.  A long chain of infix operators ("1 + 1 + 1 + ..")
+	// gives a tree which is as deep as the chain is long: refuse to
+	// follow it past the point where the program could not fit the
+	// bytecode anyway, rather than overflow the stack of our host.
+	e.depth++
+	defer func() { e.depth-- }()
+	if e.depth > maxTreeDepth {
+		return fmt.Errorf("the script is too deeply nested to compile")
+	}
+
 	switch node := node.(type) {
 
 	case *ast.Program:
